@@ -43,6 +43,9 @@ type Config struct {
 	MaxAlphabet int
 	Filter      func(parent *Node, nm chain.Named) bool // optional: keep this successor?
 	NoRevert    bool
+	// Transform, if set, is applied to the private copy of the image before the node that performs the
+	// next operation is opened (e.g. "run a schema migration between two updates").
+	Transform func(d *memory.Database) error
 	// Visit is called once per distinct state with a fresh Blockchain opened on a private copy.
 	Visit func(n *Node, bc *blockchain.Blockchain)
 	// OnStore / OnRevert are called for every transition (also those leading to known states).
@@ -109,6 +112,11 @@ func Explore(cfg Config) Stats {
 					r.Infra("alphabet produced an invalid block %s: %v", nm.Name, err)
 				}
 				d := p.DB.Copy()
+				if cfg.Transform != nil {
+					if err := cfg.Transform(d); err != nil {
+						r.Infra("transform failed on %s: %v", p.PathString(), err)
+					}
+				}
 				bc := chain.NewNode(d, cfg.NewState)
 				if err := chain.StoreSync(bc, e.Fresh(p.Head())); err != nil {
 					if cfg.OnStoreFail != nil {
